@@ -394,10 +394,18 @@ func c01Structure(r *ev.Run, id string, sc *c01Scenario, round int, corr int64, 
 				continue
 			case b.Delay == sc.Timeout: // a tie with the deadline can go either way
 				return nil, false
-			case b.Off <= -lim || b.Off >= lim:
-				return nil, false
 			}
 			vals = append(vals, b.Off)
+		}
+		// the combination of several sources is C02's subject and is stated for |v| < 2^62 only; beyond
+		// that the side's offset is determined when all its answers agree (their midpoint is that value)
+		anyHuge, allEq := false, true
+		for _, v := range vals {
+			anyHuge = anyHuge || v <= -lim || v >= lim
+			allEq = allEq && v == vals[0]
+		}
+		if anyHuge && !allEq {
+			return nil, false
 		}
 		if len(scripts) > 0 && len(vals) == 0 {
 			vals = []int64{0}
@@ -488,7 +496,17 @@ func c01Gen(rng *rand.Rand, bad int) *c01Scenario {
 	maxD := int64(float64(int64(1)<<61) / sc.PeerImpact)
 	sc.DriftOfI = 1 + rng.Int64N(min(maxD, []int64{10, 1e3, 1e6, 1e9, maxD}[rng.IntN(5)]))
 	sc.Rounds = 3 + rng.IntN(12)
-	if bad == 0 && rng.IntN(4) == 0 {
+	huge := bad == 0 && rng.IntN(8) == 0
+	if huge {
+		// caps of 2^62 ns and more: each bounded contribution fits into int64, their difference does not
+		sc.RefImpact = []float64{2, 10, 1e6, 4.5e15}[rng.IntN(4)]
+		sc.PeerImpact = sc.RefImpact + 1 + []float64{1e-6, 0.25, 1}[rng.IntN(3)]
+		if sc.RefImpact > 1e15 {
+			sc.PeerImpact = sc.RefImpact + 5e14
+		}
+		cap := float64(int64(1)<<62) * (1 + 0.95*rng.Float64())
+		sc.DriftOfI = max(1, int64(cap/sc.PeerImpact))
+	} else if bad == 0 && rng.IntN(4) == 0 {
 		// drift allowance of the real system clock: configured drift per second x interval,
 		// chosen so that the product is a whole number of nanoseconds >= 10
 		sc.DriftPerSec = []int64{1000, 20000, 100000, 1000000, 1000 * (1 + rng.Int64N(500))}[rng.IntN(5)]
@@ -541,6 +559,9 @@ func c01Gen(rng *rand.Rand, bad int) *c01Scenario {
 		case 0:
 			return pool[rng.IntN(len(pool))]
 		case 1:
+			if peerMax >= 1<<60 {
+				return int64(rng.Uint64())
+			}
 			return rng.Int64N(4*peerMax+2) - 2*peerMax - 1
 		case 2:
 			return int64(rng.Uint64())
@@ -548,7 +569,11 @@ func c01Gen(rng *rand.Rand, bad int) *c01Scenario {
 			return rng.Int64N(2001) - 1000
 		}
 	}
-	mode := rng.IntN(4) // 0 all healthy identical per side, 1 healthy varied, 2 faulty mix, 3 good rounds then all-fail rounds
+	mode := rng.IntN(4)
+	if huge && rng.IntN(2) == 0 {
+		mode = 0
+	}
+	// 0 all healthy identical per side, 1 healthy varied, 2 faulty mix, 3 good rounds then all-fail rounds
 	mkSide := func(n int) [][]c01Behave {
 		out := make([][]c01Behave, n)
 		common := make([]int64, sc.Rounds)
@@ -627,9 +652,9 @@ func init() {
 				r.Sample(map[string]any{"case": id, "scenario": sc, "first_events": evs})
 			}
 		})
-		r.Assume("correction caps below 2^61 ns (RefImpact*Drift and PeerImpact*Drift); structure clause checked only for offsets |v| < 2^62 and in rounds where every source of both sides answered before the timeout")
+		r.Assume("correction caps (RefImpact*Drift and PeerImpact*Drift) below 2^63 ns; structure clause for offsets |v| >= 2^62 only in rounds in which all answers of a side agree — how differing offsets of that size are combined is not stated (C02 stops at 2^62)")
 		r.Assume("virtual time of testing/synctest; prometheus registration replaced by a no-op registerer so that Run can be started many times in one process")
-		r.Finish("seeded configurations (impact factors {1+1e-9,1.25,2,10,1e6} and peer = ref+1+{1e-6..1e6}, cutoff {0,50us,1s,random}, interval 1ms..1h, timeout {0,I/2,random}, drift of one interval 1 ns..2^61/factor) x 0..9 reference clocks x 0..9 peers x 3..14 rounds; "+
+		r.Finish("seeded configurations (impact factors {1+1e-9,1.25,2,10,1e6} and peer = ref+1+{1e-6..1e6}, cutoff {0,50us,1s,random}, interval 1ms..1h, timeout {0,I/2,random}, drift of one interval 1 ns..2^61/factor, one scenario in eight with caps between 2^62 and 2^63 ns) x 0..9 reference clocks x 0..9 peers x 3..14 rounds; "+
 			"offsets from a boundary pool (0,+-1,+-cutoff+-1,+-maxCorr+-1,+-2^31,+-(2^62-1),MinInt64,MaxInt64) and uniform; per-source-per-round behaviours ok / error / blocked until cancelled / late by 1 ns / exactly at the deadline / very late, and all-fail rounds after good rounds; "+
 			"every 10th scenario is one of the five inadmissible configuration classes. Oracle on the recorded Do/Sleep/measure events with virtual timestamps: (Do Sleep(interval))* exactly, Do within the timeout of the round start, |corr| <= factor x Drift(interval), "+
 			"and in determined rounds corr within the interval implied by clamp/cutoff/midpoint over the FTM bounds of the round's offsets (+-1 ns); inadmissible configurations must panic before any measurement. distinct_nontrivial = distinct admissible scenarios", 8)
